@@ -305,6 +305,20 @@ func c18Ops() []c18Op {
 			_, derr2 := ike.DecodeDecrypt(b[:len(b)-3], nil, sa, message.Role_Responder)
 			return fmt.Sprintf("%s | same text after hold=%v | truncated refused=%v", first, first == again, derr2 != nil)
 		}},
+		{"dh-peer-value-not-below-p/hold/again", func(t *tctx) string {
+			// a peer sends a key exchange value that is not below the group prime (p + 5 + k fits the field): whatever
+			// this exchange yields, the group serves the next exchange (this thread's and everybody else's) as before
+			gi := t.k % 2
+			d := dh.StrToType(dhNames[gi])
+			g := ref.GroupByID(dhIDs[gi])
+			x := new(big.Int).SetBytes(univ.Pat(5, t.k+30))
+			big1 := new(big.Int).Add(g.P, big.NewInt(int64(5+t.k)))
+			sh := d.GetSharedKey(x, big1)
+			t.hold()
+			y := new(big.Int).SetBytes(univ.Pat(g.Len-1, t.k+31))
+			sh2 := d.GetSharedKey(x, y)
+			return fmt.Sprintf("%x ok=%v", sh[:8], bytes.Equal(sh2, g.Shared(x, y)))
+		}},
 		{"to-proposal/edit/hold/again", func(t *tctx) string {
 			// every thread's SA uses the same PRF, integrity algorithm and group (AES key size differs): the proposal an
 			// SA hands out belongs to the caller, who edits it (offers something else) and asks again later
